@@ -44,8 +44,11 @@ class Evaluator:
             tuple: [('metric_name', metric_val), ...]
         """
         
-        labels_numpy = labels.squeeze().detach().numpy()
-        outputs_numpy = outputs.squeeze().detach().numpy()
+        # drop the singleton axes, except the batch axis (a batch of one sample is still a batch)
+        labels_numpy = labels.detach().numpy()
+        labels_numpy = labels_numpy.reshape(labels_numpy.shape[:1] + tuple(d for d in labels_numpy.shape[1:] if d != 1))
+        outputs_numpy = outputs.detach().numpy()
+        outputs_numpy = outputs_numpy.reshape(outputs_numpy.shape[:1] + tuple(d for d in outputs_numpy.shape[1:] if d != 1))
         
         
         if self.mode == self.BINARY:
